@@ -128,8 +128,7 @@ def run(ctx):
     store = ws.recording_store()
     dds.set_store(store)
     with ws.Workspace("c13") as w:
-        for fi, params in enumerate(funs):
-            modname = w.unique("c13m")
+        def process(fi, params, modname, rewrite=False):
             n = len(params)
             # bindings: the all-default one (when possible), plus random ones
             bindings = []
@@ -162,7 +161,7 @@ def run(ctx):
                     tname = "top_%d_%d" % (bi, si)
                     src += "def %s():\n    return dds.keep('/p', f, %s)\n\n" % (tname, render_call(args, kwargs))
                     tops.append((bi, si, tname, args, kwargs))
-            mod = w.write_module(modname, src)
+            mod = w.rewrite_module(modname, src) if rewrite else w.write_module(modname, src)
             f = mod.f
             lines = inspect.getsource(f).split("\n")
             pj = params_json(f)
@@ -236,6 +235,29 @@ def run(ctx):
             if fi == 0 or fi == len(funs) // 2:
                 res.sample({"function": render_fun("f", params), "bindings": [list(map(repr, b)) for b in bindings[:3]],
                             "spellings_of_first": ["f(%s)" % render_call(a, k) for (a, k) in spellings(params, bindings[0])][:8]})
+
+        def edited(params):
+            """the same function after an edit of its parameter list: a changed default, a new default, or two parameters swapped"""
+            ps = [list(p) for p in params]
+            with_d = [i for i, (_, d) in enumerate(ps) if d is not inspect.Parameter.empty]
+            r = rng.random()
+            if with_d and r < 0.6:
+                i = rng.choice(with_d)
+                ps[i][1] = rng.choice([d for d in DEFAULTS if doc_key(d) != doc_key(ps[i][1])])
+            elif len(ps) >= 2 and r < 0.8:
+                i = rng.randrange(len(ps) - 1)
+                ps[i][0], ps[i + 1][0] = ps[i + 1][0], ps[i][0]
+            else:
+                ps[-1][1] = rng.choice(DEFAULTS)
+            return [tuple(p) for p in ps]
+
+        for fi, params in enumerate(funs):
+            modname = w.unique("c13m")
+            process(fi, params, modname)
+            if fi % 3 == 0:
+                # the parameter list is edited and the module reloaded in the same process: the same checks on the new version
+                res.count("functions_edited_and_reloaded")
+                process(fi, edited(params), modname, rewrite=True)
     # unsupported parameter kinds (unit level only)
     ns = {}
     exec("def g1(a, *rest):\n    return 1\ndef g2(a, *, k=1):\n    return 1\ndef g3(a, **kw):\n    return 1\n", ns)
